@@ -28,7 +28,10 @@ XSD = (f'<xs:schema xmlns:xs="{cm.XS}" targetNamespace="{T}" xmlns:t="{T}" eleme
        '<xs:element name="rec" type="t:rec" maxOccurs="unbounded"/></xs:sequence></xs:complexType></xs:element>'
        '<xs:complexType name="rec"><xs:sequence>'
        '<xs:element name="name" type="xs:string"/>'
-       '<xs:element name="tags" minOccurs="0"><xs:simpleType><xs:list itemType="xs:int"/></xs:simpleType></xs:element>'
+       '<xs:element name="tags" minOccurs="0" maxOccurs="2"><xs:simpleType><xs:list itemType="xs:int"/></xs:simpleType></xs:element>'
+       '<xs:element name="code" type="t:code" minOccurs="0"/>'
+       '<xs:element name="opt" type="xs:int" nillable="true" minOccurs="0"/>'
+       '<xs:element name="mark" minOccurs="0"><xs:complexType><xs:attribute name="lvl" type="xs:int"/></xs:complexType></xs:element>'
        '<xs:element name="price" minOccurs="0"><xs:complexType><xs:simpleContent><xs:extension base="xs:decimal">'
        '<xs:attribute name="cur" type="xs:string" use="required"/></xs:extension></xs:simpleContent>'
        '</xs:complexType></xs:element>'
@@ -38,9 +41,12 @@ XSD = (f'<xs:schema xmlns:xs="{cm.XS}" targetNamespace="{T}" xmlns:t="{T}" eleme
        '<xs:choice minOccurs="0" maxOccurs="unbounded"><xs:element name="a" type="xs:int"/>'
        '<xs:element name="b" type="xs:string"/></xs:choice>'
        '</xs:sequence><xs:attribute name="id" type="xs:int" use="required"/>'
-       '<xs:attribute name="flag" type="xs:boolean"/></xs:complexType></xs:schema>')
-TEXT = {"s": "abc", "i": "5", "d": "2.5", "l": "1 2 3", "x": "zz"}
-ATTR = {"i": "7", "bool": "true", "s": "EUR"}
+       '<xs:attribute name="flag" type="xs:boolean"/><xs:attribute name="ucode" type="t:code"/></xs:complexType>'
+       '<xs:simpleType name="code"><xs:restriction><xs:simpleType><xs:union memberTypes="xs:int xs:string"/>'
+       '</xs:simpleType><xs:pattern value="[0-9]{3}|[a-z]{2,5}"/></xs:restriction></xs:simpleType></xs:schema>')
+TEXT = {"s": "abc", "i": "5", "d": "2.5", "l": "1 2 3", "x": "zz", "u3": "123", "ua": "abc"}
+ATTR = {"i": "7", "bool": "true", "s": "EUR", "u3": "456", "ua": "xyz", "t": "true", "f": "false"}
+XSI_NS = "http://www.w3.org/2001/XMLSchema-instance"
 _schema = None
 
 
@@ -63,9 +69,9 @@ def render(nodes):
             if stack and stack[-1][1]:
                 out.append(" tail ")
         tag = "t:" + n["name"]
-        at = "".join(f' {a}="{ATTR[v]}"' for a, v in sorted(map(tuple, n["attrs"])))
+        at = "".join(f' {"xsi:nil" if a == "nil" else a}="{ATTR[v]}"' for a, v in sorted(map(tuple, n["attrs"])))
         if depth == 0:
-            at = f' xmlns:t="{T}"' + at
+            at = f' xmlns:t="{T}" xmlns:xsi="{XSI_NS}"' + at
         out.append(f"<{tag}{at}>")
         mixed = n["text"] == "m"
         stack.append((tag, mixed))
@@ -89,6 +95,16 @@ def is_dec(s):
     return bool(re.fullmatch(r"\s*[+-]?([0-9]+(\.[0-9]*)?|\.[0-9]+)\s*", s or ""))
 
 
+def code_class(v):
+    """The union type collapses white space before the pattern applies (its members' facet is not fixed:
+    the pattern is matched against the lexical form as written, XSD 1.0 3.14.4)."""
+    if re.fullmatch(r"[0-9]{3}", v):
+        return "u3"
+    if re.fullmatch(r"[a-z]{2,5}", v):
+        return "ua"
+    return "x"
+
+
 def abstract(elem):
     """Encoded element tree -> flat node list in the vocabulary of Converters.tla (value classes)."""
     nodes = []
@@ -104,6 +120,12 @@ def abstract(elem):
                 attrs.append(["id", "i" if is_int(v) else "x"])
             elif k == "flag":
                 attrs.append(["flag", "bool" if v.strip() in ("true", "false", "1", "0") else "x"])
+            elif k == "lvl":
+                attrs.append(["lvl", "i" if is_int(v) else "x"])
+            elif k == "ucode":
+                attrs.append(["ucode", code_class(v)])
+            elif k == "{%s}nil" % XSI_NS:
+                attrs.append(["nil", "t" if v.strip() in ("true", "1") else "f" if v.strip() in ("false", "0") else "x"])
             else:
                 attrs.append([local(k), "s"])
         txt = (e.text or "")
@@ -112,8 +134,12 @@ def abstract(elem):
             cls = "m"
         elif not txt.strip():
             cls = "-"
-        elif name in ("a",):
+        elif name in ("a", "opt"):
             cls = "i" if is_int(txt) else "x"
+        elif name == "code":
+            cls = code_class(txt)
+        elif name == "mark":
+            cls = "x"
         elif name == "tags":
             cls = "l" if all(is_int(t) for t in txt.split()) else "x"
         elif name == "price":
@@ -134,7 +160,9 @@ def typed(elem):
     def val(name, s):
         s = (s or "").strip()
         try:
-            if name == "a" or name == "id":
+            if name in ("a", "id", "opt", "lvl"):
+                return int(s)
+            if name in ("code", "ucode") and re.fullmatch(r"[0-9]{3}", s):
                 return int(s)
             if name == "price":
                 return Decimal(s)
@@ -169,6 +197,25 @@ def converters():
     return out
 
 
+RETYPE = ["zz", 12345678901234567890, None, [], {"bogus": 1}, True, 1.5, -1.5, 5, 45, 123, "045", "ABC", "ab",
+          Decimal("12.5"), [1, 2], [[1, 2]], "1 2", ""]
+
+
+def leaves(data):
+    """(container, key) of every scalar (or list-of-scalars) slot of decoded data."""
+    out = []
+
+    def walk(x):
+        items = enumerate(x) if isinstance(x, list) else x.items() if isinstance(x, dict) else ()
+        for k, v in items:
+            if isinstance(v, (dict,)) or (isinstance(v, list) and any(isinstance(y, (list, dict)) for y in v)):
+                walk(v)
+            elif not (isinstance(x, list) and k == 0 and isinstance(v, str)):      # JsonML tag slot
+                out.append((x, k))
+    walk(data)
+    return out
+
+
 def mutate(data, rng):
     """One seeded mutation of decoded data (JsonML lists or dicts): drop / duplicate / retype / reorder."""
     data = copy.deepcopy(data)
@@ -193,7 +240,7 @@ def mutate(data, rng):
         elif op == "dup":
             target.insert(i, copy.deepcopy(target[i]))
         elif op == "retype":
-            target[i] = rng.choice(["zz", 12345678901234567890, None, [], {"bogus": 1}, True, 1.5])
+            target[i] = rng.choice(RETYPE)
         else:
             j = rng.randrange(1, len(target))
             target[i], target[j] = target[j], target[i]
@@ -204,7 +251,7 @@ def mutate(data, rng):
         elif op == "dup":
             target[str(k) + "_copy"] = copy.deepcopy(target[k])
         elif op == "retype":
-            target[k] = rng.choice(["zz", None, [], {"bogus": 1}, True, -1.5, ["a", "b"]])
+            target[k] = rng.choice(RETYPE + [["a", "b"]])
         else:
             items = list(target.items())
             rng.shuffle(items)
@@ -214,7 +261,7 @@ def mutate(data, rng):
 
 
 def judge(job):
-    rec, idx, seed, nmut = job
+    rec, idx, seed, nmut, leafy = job
     import xmlschema
     s = schema()
     rng = random.Random(seed)
@@ -241,7 +288,7 @@ def judge(job):
                 out.append((name, f"encode(decode(x)) differs from x: {typed(elem)} vs {original}"[:500], xml))
                 continue
             try:
-                again = s.decode(elem, converter=conv, namespaces={"t": T})
+                again = s.decode(elem, converter=conv, namespaces={"t": T, "xsi": XSI_NS})
             except Exception as e:      # noqa: BLE001
                 out.append((name, f"decoding the re-encoded tree raised {type(e).__name__}: {e}"[:200], xml))
                 continue
@@ -267,6 +314,31 @@ def judge(job):
                     if melem is None:
                         continue
                     trees.append((name, f"mutated:{op}:{json.dumps(mdata, default=str)[:300]}", abstract(melem), xml))
+                # every scalar slot of the data replaced by every value of the catalogue
+                if leafy and name in ("jsonml", "default"):
+                    for n_slot in range(len(leaves(data))):
+                        for v in RETYPE:
+                            mdata = copy.deepcopy(data)
+                            box, key = leaves(mdata)[n_slot]
+                            if box[key] == v and type(box[key]) is type(v):
+                                continue
+                            box[key] = v
+                            try:
+                                melem = s.encode(mdata, converter=conv)
+                            except xmlschema.XMLSchemaException:
+                                continue
+                            except (TypeError, AttributeError, KeyError, IndexError, ValueError) as e:
+                                out.append((name, f"strict encode of data with slot {key!r} := {v!r} raised the foreign "
+                                            f"exception {type(e).__name__}: {str(e)[:120]}; data {mdata!r}"[:500], xml,
+                                            "F-C05-b"))
+                                continue
+                            except Exception as e:      # noqa: BLE001
+                                out.append((name, f"strict encode of data with slot {key!r} := {v!r} raised the foreign "
+                                            f"exception {type(e).__name__}: {str(e)[:120]}; data {mdata!r}"[:500], xml))
+                                continue
+                            if melem is not None:
+                                trees.append((name, f"slot {key!r} := {v!r} in {json.dumps(data, default=str)[:240]}",
+                                              abstract(melem), xml))
     return out, trees
 
 
@@ -282,12 +354,16 @@ def run(ctx: Ctx):
     thorough = ctx.tier == "thorough"
     r = ctx.tlc("Converters", "Converters.cfg", constants={"MaxRecs": 1}, tag="A")
     recs = r.json_records()
-    # a seeded sample of two-record documents
     rng = random.Random(ctx.seed)
+    if not thorough:        # a seeded sixth of the one-record documents
+        rng.shuffle(recs)
+        recs = recs[: len(recs) // 6]
+    # a seeded sample of two-record documents
     two = [{"nodes": merge(a["nodes"], b["nodes"]), "contiguous": a["contiguous"] and b["contiguous"]}
            for a, b in (rng.sample(recs, 2) for _ in range(300 if thorough else 60))]
     docs = recs + two
-    jobs = [(rec, i, ctx.seed * 65537 + i, 6 if thorough else 2) for i, rec in enumerate(docs)]
+    jobs = [(rec, i, ctx.seed * 65537 + i, 6 if thorough else 2, i % (5 if thorough else 40) == 0)
+            for i, rec in enumerate(docs)]
     all_trees = []
     for bad, trees in ctx.pmap(judge, jobs):
         all_trees += trees
@@ -295,18 +371,24 @@ def run(ctx: Ctx):
             name, what, xml = item[:3]
             ctx.report({"converter": name, "xml": xml, "observed": what}, f"{name}: {what[:300]}  [{xml[:200]}]",
                        finding=item[3] if len(item) > 3 else None)
-    # the specification judges what encode() returned
-    verdicts = []
-    for i in range(0, len(all_trees), 4000):
-        chunk = all_trees[i:i + 4000]
+    # the specification judges what encode() returned (each distinct tree once)
+    distinct = sorted({json.dumps(t[2]) for t in all_trees})
+    chunks = [distinct[i:i + 3000] for i in range(0, len(distinct), 3000)]
+
+    def judge_chunk(i, chunk):
         path = ctx.work / f"trees_{i}.json"
-        path.write_text(json.dumps([t[2] for t in chunk]))
+        path.write_text("[" + ",".join(chunk) + "]")
         res = ctx.tlc("Judge_Converters", cfg_text="SPECIFICATION Spec\nCHECK_DEADLOCK FALSE\n",
                       constants={"MaxRecs": 0}, env={"TRACE_FILE": str(path)}, workers=1, tag=f"judge-{i}")
         v = [x for x in res.json_records() if "verdicts" in x]
         if not v or len(v[0]["verdicts"]) != len(chunk):
             raise MachineryError("the spec judge returned no verdict list")
-        verdicts += v[0]["verdicts"]
+        return v[0]["verdicts"]
+    verdict_of = {}
+    for chunk, vs in zip(chunks, ctx.parallel([(lambda i=i, c=c: judge_chunk(i, c)) for i, c in enumerate(chunks)],
+                                              width=8)):
+        verdict_of.update(zip(chunk, vs))
+    verdicts = [verdict_of[json.dumps(t[2])] for t in all_trees]
     for (name, what, nodes, xml), ok in zip(all_trees, verdicts):
         if not ok:
             ctx.report({"converter": name, "phase": what, "tree": nodes, "xml": xml,
@@ -318,11 +400,13 @@ def run(ctx: Ctx):
     ctx.sample({"judged_tree": all_trees[0][2][:4] if all_trees else None})
     ctx.evaluations = len(all_trees) + len(jobs)
     ctx.nontrivial = len(jobs)
-    ctx.rule = ("every one-record document of spec/Converters.tla (216: flag, list, simple content with "
-                "attribute, mixed content with 0-1 children, 9 interleavings of a/b children) plus a seeded "
-                "sample of two-record documents x lossless conventions; seeded mutations of the decoded data "
-                "(drop, duplicate, retype, reorder) encoded in strict mode; every returned tree is judged by "
-                "the specification's Valid (TLC batch)")
+    ctx.extra["distinct_trees_judged_by_tlc"] = len(distinct)
+    ctx.rule = ("one-record documents of spec/Converters.tla (26 244: boolean / union-with-pattern attributes, 0-2 "
+                "list-valued children, union-with-pattern / nillable / empty-with-attribute / simple-content / mixed "
+                "children, 9 interleavings of a/b children; a seeded sixth in the quick tier) plus a seeded sample of "
+                "two-record documents x lossless conventions; seeded mutations of the decoded data (drop, duplicate, "
+                "retype, reorder) and, for every 40th (5th) document, every scalar slot x a catalogue of 19 values, "
+                "encoded in strict mode; every returned tree is judged by the specification's Valid (TLC batch)")
     ctx.assumptions += ["default / BadgerFish / GData are exercised only on documents whose same-named children "
                         "are contiguous", "mixed-content text is compared whitespace-normalised",
                         "prefix layouts are non-shadowing (C17's domain is excluded here)"]
